@@ -156,6 +156,25 @@ theorem fwdHop_inj {a b : Nat} (h : fwdHop a = fwdHop b) : a = b := by
   simp only [String.toList_append, List.append_cancel_left_eq] at h2
   exact Nat.repr_injective (String.toList_inj.mp h2)
 
+/-! ### forwarder hop names decode back to the forwarder id
+
+The world driver (`forwardPkt` in SimVerif/Drv/Kernel.lean) recognises a forwarder hop by
+`hop.startsWith "@"` and decodes it with `((hop.drop 1).toString).toNat?`. -/
+
+theorem fwdHop_startsWith (f : Nat) : (fwdHop f).startsWith "@" = true := by
+  unfold fwdHop; simp
+
+theorem fwdHop_drop (f : Nat) : ((fwdHop f).drop 1).toString = Nat.repr f := by
+  unfold fwdHop
+  apply String.toList_inj.mp
+  show ((("@" ++ toString f).drop 1).copy).toList = _
+  rw [String.toList_copy_drop]
+  simp [String.toList_append]
+
+/-- the round trip: the driver's decoding of `fwdHop f` is `some f`, for every `f` -/
+theorem fwdHop_decode (f : Nat) : ((fwdHop f).drop 1).toString.toNat? = some f := by
+  rw [fwdHop_drop, Nat.toNat?_repr]
+
 /-! ### printed endpoints and the NAT's address replacement -/
 
 theorem portSuffix_no_colon (s : String) : ':' ∉ (portSuffix s).toList := by
